@@ -498,6 +498,9 @@ def judge_run(cfg, out, base=0):
         else:
             got = sorted(r[1] for r in ret)
             if retry:
+                if len(set(got)) != len(got) or any(x not in range(base, base + n) for x in got):
+                    # C08's "only genuine results, at most one per input" does not depend on the retry setting
+                    v.append(('C08', 'returned-foreign-or-duplicate-result', 'run returned %s for inputs %d..%d' % (got, base, base + n - 1)))
                 if got != list(range(base, base + n)):
                     v.append(('C07', 'result-multiset', 'run returned %s for inputs %d..%d (missing %s, foreign or duplicated %s)' % (
                         got, base, base + n - 1, sorted(set(range(base, base + n)) - set(got)), sorted(x for x in set(got) if got.count(x) > 1 or x not in range(base, base + n)))))
